@@ -71,25 +71,24 @@ theorem mergeSort_congr {α : Type} {le le' : α → α → Bool} (l : List α)
 
 /-! ## sort -/
 
-theorem sortV_eq (m : Mode) (cs rev : Bool) (attr : Option (List Nat)) (xs : List V)
-    (h : ∀ x ∈ xs, InRange (keyOf m attr x)) :
-    sortV m cs rev attr xs = Coll.sort cmpK (fun x => kk cs (keyOf m attr x)) rev xs := by
-  unfold sortV Coll.sort
+theorem sortKV_eq (cs rev : Bool) (kf : V → V) (xs : List V) (h : ∀ x ∈ xs, InRange (kf x)) :
+    sortKV cs rev kf xs = Coll.sort cmpK (fun x => kk cs (kf x)) rev xs := by
+  unfold sortKV Coll.sort
   apply mergeSort_congr
   intro a ha b hb
   rw [cmpHelper_eq_cmpK cs rev (h a ha) (h b hb)]; rfl
 
-/-- `sort` on values: a permutation, ordered by `cmp_helper`, equal keys in input order -/
-theorem sortV_spec (m : Mode) (cs rev : Bool) (attr : Option (List Nat)) (xs : List V)
-    (h : ∀ x ∈ xs, InRange (keyOf m attr x)) :
-    (sortV m cs rev attr xs).Perm xs ∧
-    (sortV m cs rev attr xs).Pairwise (fun a b => cmpHelper cs rev (keyOf m attr a) (keyOf m attr b) ≠ .gt) ∧
-    (∀ a b, [a, b].Sublist xs → cmpHelper cs rev (keyOf m attr a) (keyOf m attr b) = .eq →
-      [a, b].Sublist (sortV m cs rev attr xs)) := by
-  rw [sortV_eq m cs rev attr xs h]
-  have hp := sort_perm' cmpK (fun x => kk cs (keyOf m attr x)) rev xs
+/-- sorting by any key function: a permutation, ordered by `cmp_helper` on the keys, items with
+    `Equal` keys in input order -/
+theorem sortKV_spec (cs rev : Bool) (kf : V → V) (xs : List V) (h : ∀ x ∈ xs, InRange (kf x)) :
+    (sortKV cs rev kf xs).Perm xs ∧
+    (sortKV cs rev kf xs).Pairwise (fun a b => cmpHelper cs rev (kf a) (kf b) ≠ .gt) ∧
+    (∀ a b, [a, b].Sublist xs → cmpHelper cs rev (kf a) (kf b) = .eq →
+      [a, b].Sublist (sortKV cs rev kf xs)) := by
+  rw [sortKV_eq cs rev kf xs h]
+  have hp := sort_perm' cmpK (fun x => kk cs (kf x)) rev xs
   refine ⟨hp, ?_, ?_⟩
-  · have hs := sort_sorted' cmpK (fun x => kk cs (keyOf m attr x)) rev xs
+  · have hs := sort_sorted' cmpK (fun x => kk cs (kf x)) rev xs
     rw [List.pairwise_iff_forall_sublist] at hs ⊢
     intro a b hab
     have ha : a ∈ xs := hp.subset (hab.subset (by simp))
@@ -100,8 +99,26 @@ theorem sortV_spec (m : Mode) (cs rev : Bool) (attr : Option (List Nat)) (xs : L
     have ha : a ∈ xs := hab.subset (by simp)
     have hb : b ∈ xs := hab.subset (by simp)
     rw [cmpHelper_eq_cmpK cs rev (h a ha) (h b hb)] at he
-    apply sort_stable' cmpK (fun x => kk cs (keyOf m attr x)) rev xs [a, b] hab
+    apply sort_stable' cmpK (fun x => kk cs (kf x)) rev xs [a, b] hab
     simp [he]
+
+/-- `sort` on values: a permutation, ordered by `cmp_helper`, equal keys in input order -/
+theorem sortV_spec (m : Mode) (cs rev : Bool) (attr : Option (List Nat)) (xs : List V)
+    (h : ∀ x ∈ xs, InRange (keyOf m attr x)) :
+    (sortV m cs rev attr xs).Perm xs ∧
+    (sortV m cs rev attr xs).Pairwise (fun a b => cmpHelper cs rev (keyOf m attr a) (keyOf m attr b) ≠ .gt) ∧
+    (∀ a b, [a, b].Sublist xs → cmpHelper cs rev (keyOf m attr a) (keyOf m attr b) = .eq →
+      [a, b].Sublist (sortV m cs rev attr xs)) :=
+  sortKV_spec cs rev (keyOf m attr) xs h
+
+/-- `sort` with several attributes: the same, keyed by the list of the attributes -/
+theorem sortMultiV_spec (m : Mode) (cs rev : Bool) (names : List (List Nat)) (xs : List V)
+    (h : ∀ x ∈ xs, InRange (keyMulti m names x)) :
+    (sortMultiV m cs rev names xs).Perm xs ∧
+    (sortMultiV m cs rev names xs).Pairwise (fun a b => cmpHelper cs rev (keyMulti m names a) (keyMulti m names b) ≠ .gt) ∧
+    (∀ a b, [a, b].Sublist xs → cmpHelper cs rev (keyMulti m names a) (keyMulti m names b) = .eq →
+      [a, b].Sublist (sortMultiV m cs rev names xs)) :=
+  sortKV_spec cs rev (keyMulti m names) xs h
 
 /-! ## dictsort -/
 
